@@ -62,6 +62,17 @@ CHECKS = {
    note=TB + "All C16 theorems closed under the global context. Tie: tables of real KTHierarchy objects compared exactly in Coq; "
         "right-hand sides compared exactly on Gaussian-integer inputs. The binomial level count is not mechanised.",
    design="7/C16", technique="Coq proof (induction over levels, NoDup/sortedness of the table, ring algebra for the RHS) + exact in-Coq correspondence"),
+ "C05": dict(
+   text="Proved in Coq: over the rationals and for arbitrary non-zero conversion factors, a value supplied under u and read under v "
+        "is the exact conversion for all 11x11 pairs incl. the reciprocal 'nm' handling; round trip; composition; array elements "
+        "(zero stays zero). For EVERY program of nested energy/length contexts, exceptions, handlers and builds (induction over "
+        "program trees): units, nesting counter and flag are restored on normal and exceptional exit; inside a context the units "
+        "are the requested ones; refutation witness for the pinned raw units switch of Aggregate.build (repaired by a fix: commit). "
+        "'No library call changes the caller's units' is monitored on ~30 public calls (succeeding and raising) inside contexts - "
+        "this clause quantifies over library code and is validated, not proved.",
+   note=TB + "All C05 theorems closed under the global context. Tie: 9 accessors x 121 unit pairs compared in Coq with the model on the "
+        "implementation's own factors (1e-13); random context programs incl. real builds compared state by state in Coq.",
+   design="7/C05", technique="Coq proof (field arithmetic over Q; induction over context programs) + in-Coq differential correspondence"),
 }
 NOT_YET = {}
 def main():
